@@ -1,8 +1,27 @@
-"""C06 cases: bitwise logic, counts, bit manipulation."""
+"""C06 cases: bitwise logic, counts, bit manipulation.
+
+Input classes (all general, none keyed to a known defect):
+  * structured values (`common.value`), related pairs (`common.pair`) and `runs_value` (k whole extreme
+    digits followed by a partial one, from either end: the early-exit boundary of the counting loops) for
+    every operation, every quick configuration, both signednesses;
+  * `pow2_edges`: 2^k, 2^k +- 1 for k at digit boundaries and at BITS-1 / BITS-w (the rounding boundary
+    of `*_next_power_of_two`, `None` / `0` / panic when the result does not fit);
+  * bit indices drawn per operation from `indices` (digit boundaries k*w-1, k*w, k*w+1, BITS-w, BITS-1,
+    counter-truncation boundaries 255/256/65535/65536, random; a few out-of-range ones), several per value;
+  * whole-index-range requests (`bit_scan`, `set_bit_scan`, `power_of_two_scan`: every index of one value in
+    one request) on every configuration including the four 8192-bit ones;
+  * the complete edge grid (digits from {0, 1, B/2-1, B/2, B-1}) for every operation incl. the unsigned-only
+    ones, both `next_power_of_two` build modes, the scans, and the binary operators on grid pairs;
+  * the 8192-bit instantiation of every digit type (`_huge`): every operation, with the zero / all-ones /
+    run / power-of-two-edge operands where the BITS-dependent totals reach their maxima.
+Thorough: complete 16-bit enumeration (8x2) of every unary operation incl. the unsigned-only ones and the
+scans, complete 8-bit enumeration of the binary operators, all-widths sweep.
+"""
 from .common import *
 from . import widthsweep as _ws
 
-HARNESS_BINS_THOROUGH = ["widths"]
+# `widths` (shared, count_ones only) and `c06w` (this property's own all-widths bin: harness/src/bin/c06w.rs)
+HARNESS_BINS_THOROUGH = ["widths", "c06w"]
 from . import prim as _prim
 
 # the trusted leaf layer (Lean Prim.*) is validated against rustc's primitives in the same run
@@ -16,14 +35,23 @@ BIN = ["bitand", "bitor", "bitxor"]
 UN = ["not", "swap_bytes", "reverse_bits", "is_power_of_two", "is_zero", "is_one",
       "count_ones", "count_zeros", "leading_zeros", "trailing_zeros", "leading_ones", "trailing_ones", "bits"]
 U_ONLY = ["checked_next_power_of_two", "wrapping_next_power_of_two"]
+# the operations whose answer is a BITS-dependent total / depends on an early-exit scan
+COUNTS = ["count_ones", "count_zeros", "leading_zeros", "trailing_zeros", "leading_ones", "trailing_ones", "bits",
+          "is_power_of_two", "is_zero", "is_one"]
+POW2 = ["is_power_of_two", "bits", "leading_zeros", "trailing_zeros", "count_ones"]
 
 
-def runs_value(rng, w, n):
-    """k extreme whole digits then a partial one (the early-exit boundary of the counting loops)"""
+def runs_value(rng, w, n, k=None, fill=None, top=None):
+    """k extreme whole digits (all `fill`: 0 or B-1) then a partial one, counted from the bottom or from the
+    `top`: the early-exit boundary of the counting loops"""
     W = w * n
     B = 1 << w
-    k = rng.randrange(0, n + 1)
-    fill = rng.choice([0, B - 1])
+    if k is None:
+        k = rng.randrange(0, n + 1)
+    if fill is None:
+        fill = rng.choice([0, B - 1])
+    if top is None:
+        top = rng.random() < 0.5
     v = 0
     for i in range(n):
         if i < k:
@@ -36,10 +64,92 @@ def runs_value(rng, w, n):
         else:
             d = rng.randrange(B)
         v |= d << (w * i)
-    if rng.random() < 0.5:
+    if top:
         # same thing from the top
         v = int(format(v, "0%db" % W)[::-1], 2)
     return "runs", v
+
+
+# the operation whose loop walks through the run, per (run of ones?, run at the top?)
+_RUN_OPS = {(0, 0): ["trailing_zeros"], (1, 0): ["trailing_ones"],
+            (0, 1): ["leading_zeros", "bits"], (1, 1): ["leading_ones"]}
+
+
+def _runs_cases(rng, cfg, ks, tag, both_signs=True):
+    """for every run length k in `ks` and every orientation: the operation that walks the run, plus one
+    other counting operation"""
+    w, n = wn(cfg)
+    B = 1 << w
+    for k in ks:
+        for ones in (0, 1):
+            for top in (0, 1):
+                t, a = runs_value(rng, w, n, k, (B - 1) if ones else 0, bool(top))
+                for op in _RUN_OPS[(ones, top)] + [rng.choice(COUNTS)]:
+                    for s in ("ui" if both_signs else rng.choice("ui")):
+                        yield f"{op} {s}{cfg} {hx(a)}", tag
+
+
+def any_value(rng, w, n):
+    return value(rng, w, n) if rng.random() < 0.5 else runs_value(rng, w, n)
+
+
+def pow2_edges(rng, w, n):
+    """2^k and its neighbours at the exponents where the power-of-two functions change behaviour"""
+    W = w * n
+    M = 1 << W
+    ks = {0, 1, w - 1, w, W - 1, W - 2, W - w, max(0, W - w - 1), rng.randrange(W), w * rng.randrange(n)}
+    out = []
+    for k in sorted(k for k in ks if 0 <= k < W):
+        for d in (-1, 0, 1):
+            out.append(pat((1 << k) + d, W))
+    out += [M - 1, M - 2, (M >> 1) + (M >> 2), 3 << max(0, W - w - 1) if W > w else 3]
+    return sorted(set(v & (M - 1) for v in out))
+
+
+def indices(rng, w, n, k_in=6, k_out=1):
+    """bit indices: `k_in` in range (digit boundaries first), `k_out` out of range"""
+    W = w * n
+    cand = [0, 1, w - 1, W - 1, W - w, W - 2]
+    cand += [i for i in (w, w + 1, W - w - 1, W - w + 1, 255, 256, 257, 65535, 65536) if i < W]
+    if n > 1:
+        j = rng.randrange(1, n)
+        cand += [j * w - 1, j * w, j * w + 1 if j * w + 1 < W else j * w]
+    cand += [rng.randrange(W) for _ in range(3)]
+    cand = [i for i in cand if 0 <= i < W]
+    ins = rng.sample(cand, min(k_in, len(cand)))
+    outs = rng.sample([W, W + 1, W + w - 1, W + w, 2 * W, (1 << 31), (1 << 32) - 1, W + 8 * rng.randrange(1, 64)], k_out)
+    return ins + outs
+
+
+def _index_ops(rng, cfg, k_in, k_out, signs="ui"):
+    """bit / set_bit / power_of_two with indices drawn independently per operation"""
+    w, n = wn(cfg)
+    t, a = any_value(rng, w, n)
+    for s in signs:
+        for i in indices(rng, w, n, k_in, k_out):
+            yield f"bit {s}{cfg} {hx(a)} {i}", t
+    t, a = any_value(rng, w, n)
+    for i in indices(rng, w, n, k_in, k_out):
+        yield f"set_bit u{cfg} {hx(a)} {i} {rng.randrange(2)}", t
+    for i in indices(rng, w, n, k_in, k_out):
+        yield f"power_of_two u{cfg} {i}", "idx"
+
+
+def _scans(rng, cfg, vals):
+    """every index of the configuration in one request"""
+    for a in vals:
+        for s in "ui":
+            yield f"bit_scan {s}{cfg} {hx(a)}", "scan"
+        for v in (0, 1):
+            yield f"set_bit_scan u{cfg} {hx(a)} {v}", "scan"
+    yield f"power_of_two_scan u{cfg}", "scan"
+
+
+def _npo2(cfg, a, t):
+    for op in U_ONLY:
+        yield f"{op} u{cfg} {hx(a)}", t
+    for mode in ("dbg", "rel"):
+        yield f"next_power_of_two u{cfg} {mode} {hx(a)}", t
 
 
 def _gen_main(rng, tier):
@@ -47,34 +157,85 @@ def _gen_main(rng, tier):
     for cfg in cfgs(tier):
         w, n = wn(cfg)
         W = w * n
-        for _ in range(reps if n <= 40 else 10):
+        M = 1 << W
+        r = reps if n <= 40 else 10
+        for _ in range(r):
             for s in "ui":
                 for op in BIN:
                     t, a, b = pair(rng, w, n)
                     yield f"{op} {s}{cfg} {hx(a)} {hx(b)}", t
                 for op in UN + (U_ONLY if s == "u" else []):
-                    t, a = value(rng, w, n) if rng.random() < 0.5 else runs_value(rng, w, n)
+                    t, a = any_value(rng, w, n)
                     yield f"{op} {s}{cfg} {hx(a)}", t
-                t, a = value(rng, w, n)
-                i = rng.choice([0, w - 1, w, W - 1, W, W + 1, rng.randrange(W), rng.randrange(W), (1 << 32) - 1, W + w - 1, W + w])
-                yield f"bit {s}{cfg} {hx(a)} {i}", t
-                if s == "u":
-                    yield f"set_bit u{cfg} {hx(a)} {i} {rng.randrange(2)}", t
-                    yield f"power_of_two u{cfg} {i}", "idx"
-                    t, a = value(rng, w, n)
-                    for mode in ("dbg", "rel"):
-                        yield f"next_power_of_two u{cfg} {mode} {hx(a)}", t
+            yield from _index_ops(rng, cfg, 3, 1)
+            t, a = any_value(rng, w, n)
+            for mode in ("dbg", "rel"):
+                yield f"next_power_of_two u{cfg} {mode} {hx(a)}", t
+        # power-of-two boundary operands of this configuration
+        for a in pow2_edges(rng, w, n):
+            yield from _npo2(cfg, a, "pow2-edge")
+            for s in "ui":
+                for op in POW2:
+                    yield f"{op} {s}{cfg} {hx(a)}", "pow2-edge"
+        # runs of every length k = 0..n (n <= 17), else the ends and a few in between
+        ks = range(n + 1) if n <= 17 else sorted({0, 1, n // 2, n - 1, n, rng.randrange(n)})
+        yield from _runs_cases(rng, cfg, ks, "runs")
+        # all indices of a few values
+        vals = [0, M - 1, rng.randrange(M), runs_value(rng, w, n)[1]]
+        yield from _scans(rng, cfg, vals if n <= 40 else vals[2:])
     if tier == "thorough":
-        for s in "ui":
-            for op in UN:
-                for a in range(1 << 16):
+        for a in range(1 << 16):
+            for s in "ui":
+                for op in UN:
                     yield f"{op} {s}8x2 {hx(a)}", "exhaustive16"
+                yield f"bit_scan {s}8x2 {hx(a)}", "exhaustive16"
+            yield from _npo2("8x2", a, "exhaustive16")
+            if a % 16 in (0, 5, 15):
+                yield f"set_bit_scan u8x2 {hx(a)} {a >> 4 & 1}", "exhaustive16"
+        for a in range(256):
+            for b in range(256):
+                for s in "ui":
+                    for op in BIN:
+                        yield f"{op} {s}8x1 {hx(a)} {hx(b)}", "exhaustive8x8"
+
+
+def _widths(rng):
+    """Thorough tier: the BITS-dependent totals for EVERY digit count N = 1..1024 of the u8-digit type
+    (answered by harness bin `c06w`): zero / all-ones / one-bit patterns where the counts are BITS, BITS-1, 0;
+    reversal of non-palindromic patterns; the power-of-two rounding boundary; the top bit index."""
+    for n in range(1, 1025):
+        W = 8 * n
+        M = 1 << W
+        cfg = f"8x{n}"
+        r = rng.randrange(M)
+        k = rng.randrange(W)
+        t = "width-sweep"
+        for op, a in (("count_zeros", 0), ("count_zeros", r), ("leading_zeros", 0), ("leading_zeros", 1),
+                      ("trailing_zeros", 0), ("trailing_zeros", M >> 1), ("leading_ones", M - 1),
+                      ("leading_ones", M - 1 - (1 << k)), ("trailing_ones", M - 1), ("trailing_ones", (1 << k) - 1),
+                      ("bits", M - 1), ("bits", 1 << k), ("reverse_bits", 1), ("reverse_bits", r),
+                      ("swap_bytes", r), ("not", r), ("is_power_of_two", M >> 1), ("is_one", 1), ("is_zero", 0),
+                      ("checked_next_power_of_two", (M >> 1) + 1), ("checked_next_power_of_two", M >> 1),
+                      ("checked_next_power_of_two", (M >> 1) - 1), ("checked_next_power_of_two", (1 << k) + 1),
+                      ("wrapping_next_power_of_two", (M >> 1) + 1), ("wrapping_next_power_of_two", r)):
+            yield f"{op} u{cfg} {hx(a)}", t
+        for mode in ("dbg", "rel"):
+            yield f"next_power_of_two u{cfg} {mode} {hx(M - 1)}", t
+        for i in (W - 1, k, W):
+            yield f"power_of_two u{cfg} {i}", t
+            yield f"bit u{cfg} {hx((M >> 1) | (1 << k))} {i}", t
+        yield f"set_bit u{cfg} {hx(r)} {W - 1} {rng.randrange(2)}", t
+        yield f"set_bit u{cfg} {hx(r)} {k} {rng.randrange(2)}", t
+        if n <= 160 or n % 32 == 0:
+            yield f"bit_scan u{cfg} {hx(r)}", t
+            yield f"power_of_two_scan u{cfg}", t
 
 
 def gen(rng, tier):
     yield from _gen_main(rng, tier)
     if tier == "thorough":
         yield from _ws.count(rng)
+        yield from _widths(rng)
     yield from _grid(rng, tier)
     yield from _huge(rng, tier)
     yield from _prim.bits(rng, tier)
@@ -83,19 +244,59 @@ def gen(rng, tier):
 def _grid(rng, tier):
     for cfg in GRID_CFGS:
         w, n = wn(cfg)
-        for s in "ui":
-            for op in UN:
-                for a in edge_grid(w, n):
+        g = edge_grid(w, n)
+        for a in g:
+            for s in "ui":
+                for op in UN:
                     yield f"{op} {s}{cfg} {hx(a)}", "edge-grid"
+                yield f"bit_scan {s}{cfg} {hx(a)}", "edge-grid"
+            yield from _npo2(cfg, a, "edge-grid")
+        # set_bit over all indices: both values on a sample of the grid
+        for a in (g if len(g) <= 25 else rng.sample(g, 25)):
+            for v in (0, 1):
+                yield f"set_bit_scan u{cfg} {hx(a)} {v}", "edge-grid"
+        for a, b in grid_pairs(rng, cfg, 700 if tier == "thorough" else 150):
+            for s in "ui":
+                for op in BIN:
+                    yield f"{op} {s}{cfg} {hx(a)} {hx(b)}", "edge-grid"
 
 
 def _huge(rng, tier):
+    """8192 bits, every digit type: every operation; the BITS-dependent totals reach their maxima
+    (count 8192 > u8/u12 counters, digit index up to 1023, ...)"""
     for cfg in HUGE_CFGS:
-        for a in huge_values(rng, cfg):
-            for s in "ui":
-                for op in UN:
+        w, n = wn(cfg)
+        W = w * n
+        M = 1 << W
+        base = huge_values(rng, cfg) + [0, 2, M - 2]
+        for a in base:
+            # (the signed methods forward to the unsigned ones: one signedness per request, at random,
+            # keeps the 2 KB requests few; both are always used on the all-ones and zero patterns)
+            for op in UN:
+                for s in ("ui" if a in (0, M - 1) else rng.choice("ui")):
                     yield f"{op} {s}{cfg} {hx(a)}", "huge"
+            yield from _npo2(cfg, a, "huge")
+        # runs: k whole extreme digits (k at the ends, in the middle, around 256 digits) then a partial digit
+        ks = sorted({1, n // 2, n - 2, n - 1, rng.randrange(n)} | {k for k in (255, 256, 257) if k < n - 1})
+        yield from _runs_cases(rng, cfg, ks, "huge-runs", both_signs=False)
+        # power-of-two boundaries
+        for a in rng.sample(pow2_edges(rng, w, n), 8) + [(M >> 1) + 1, M >> 1, (M >> 1) - 1]:
+            yield from _npo2(cfg, a, "huge-pow2")
+            for op in POW2:
+                yield f"{op} {rng.choice('ui')}{cfg} {hx(a)}", "huge-pow2"
+        for _ in range(3):
+            for op in BIN:
+                t, a, b = pair(rng, w, n)
+                yield f"{op} {rng.choice('ui')}{cfg} {hx(a)} {hx(b)}", "huge"
+        # index operations: sampled indices, and every index of two values
+        for x in _index_ops(rng, cfg, 10, 2, signs=rng.choice(["ui", "iu"])[:1]):
+            yield x[0], "huge-idx"
+        yield from _scans(rng, cfg, [runs_value(rng, w, n)[1]])
 
 
 def ROUTE(line):
-    return _ws.route(line, None, _route_inner)
+    # configurations u8xN outside the standard list: `count_ones` goes to the shared `widths` bin (the only C06
+    # operation it knows), everything else to `c06w`
+    if _ws.is_sweep(line):
+        return "widths" if line.startswith("count_ones ") else "c06w"
+    return _route_inner(line)
